@@ -62,6 +62,8 @@ def _write_bad_nc(path, inp):
     """a NetCDF file with time, leadtime and location VARIABLES but the lead times on a dimension called `offset`: not the documented layout"""
     import netCDF4
     import numpy as np
+    if os.path.exists(path):
+        os.remove(path)             # a new file, also when a previous command line left the old one open
     f = netCDF4.Dataset(path, "w", format="NETCDF4")
     nt, nl, ns = len(inp["times"]), len(inp["leads"]), len(inp["locs"])
     f.createDimension("time", None)
